@@ -765,26 +765,28 @@ class _SymDict2(dict):
 
 
 def run_fqn():
-    """companion of contracts/imports.py: real PGFileImport / GrammarSymbol objects on import chains of depth 0..3:
+    """companion of contracts/imports.py: real PGFileImport / GrammarSymbol objects on import chains of depth 0..4:
     the qualified name is the dotted path of module names, outermost first, followed by the symbol's name"""
     from parglare.grammar import NonTerminal, PGFileImport
     out = _res()
-    names = ["base", "m1", "m2", "m3"]
-    for depth in range(0, 4):
-        chain = None
-        path = []
-        for i in range(depth):
-            imp = PGFileImport(names[i], f"/x/{names[i]}.pg", NS(imported_with=chain))
-            path.append(names[i])
-            chain = imp
+    # (a module name may repeat along a chain: the same alias one level down, equally named files in other directories)
+    for names in (["base", "m1", "m2", "m3"], ["m", "m", "x", "m"], ["util", "sub", "util", "util"]):
+        for depth in range(0, 5):
+            chain = None
+            path = []
+            for i in range(depth):
+                imp = PGFileImport(names[i], f"/x/{i}/{names[i]}.pg", NS(imported_with=chain))
+                path.append(names[i])
+                chain = imp
+                out["evaluations"] += 1
+                if imp.fqn != ".".join(path):
+                    _viol(out, "PGFileImport.fqn", {"chain": list(path)}, {"observed": imp.fqn})
+            sym = NonTerminal("Rule", imported_with=chain)
             out["evaluations"] += 1
-            if imp.fqn != ".".join(path):
-                _viol(out, "PGFileImport.fqn", {"chain": list(path)}, {"observed": imp.fqn})
-        sym = NonTerminal("Rule", imported_with=chain)
-        out["evaluations"] += 1
-        out["nontrivial"] += 1 if depth else 0
-        if sym.fqn != ".".join(path + ["Rule"]):
-            _viol(out, "GrammarSymbol.fqn", {"chain": list(path), "name": "Rule"}, {"observed": sym.fqn})
+            out["nontrivial"] += 1 if depth else 0
+            if sym.fqn != ".".join(path + ["Rule"]):
+                _viol(out, "GrammarSymbol.fqn", {"chain": list(path), "name": "Rule"}, {"observed": sym.fqn})
     out["covers"] = ["PGFileImport.fqn", "GrammarSymbol.fqn"]
-    out["rule"] = "companion of contracts/imports.py: import chains of depth 0..3, a symbol imported through each"
+    out["rule"] = ("companion of contracts/imports.py: import chains of depth 0..4 (module names distinct and repeated), a "
+                   "symbol imported through each")
     return out
